@@ -16,8 +16,46 @@ import (
 type (
 	Locker = realsync.Locker
 	Map    = realsync.Map
-	Pool   = realsync.Pool
 )
+
+// Pool: the real pool keeps per-processor caches and drops its contents at garbage collections, so
+// whether a Get returns a recycled object depends on which processor the goroutine runs on: not
+// replayable. The simulated pool is a stack: a Get returns the most recently Put object whenever there
+// is one (the adversarial choice for code that recycles an object somebody still uses), otherwise New().
+type Pool struct {
+	New  func() any
+	real realsync.Pool
+}
+
+func (p *Pool) Get() any {
+	if !simrt.Active() {
+		p.real.New = p.New
+		return p.real.Get()
+	}
+	simrt.Yield(simrt.Site(1))
+	if x, ok := simrt.PoolGet(p); ok {
+		simrt.RaceAcquire(p)
+		simrt.Probe("pool_object_recycled")
+		return x
+	}
+	if p.New != nil {
+		return p.New()
+	}
+	return nil
+}
+
+func (p *Pool) Put(x any) {
+	if !simrt.Active() {
+		p.real.Put(x)
+		return
+	}
+	if x == nil {
+		return
+	}
+	simrt.Yield(simrt.Site(1))
+	simrt.RaceReleaseMerge(p)
+	simrt.PoolPut(p, x)
+}
 
 func OnceFunc(f func()) func() {
 	var once Once
